@@ -540,6 +540,55 @@ def direct_randomize(ck, cases, cj, sigs, env, quick):
     ck.extra_cov.setdefault("timings_s", {})["randomize_model_direct"] = round(time.time() - t0, 1)
 
 
+def wiring_probe(ck):
+    """Cheap (no compilation) probe for all three tasks: which configured range does initial() hand to randomize_model under
+    which name?  The randomiser is replaced by a recorder that stops initial() right there.  A range passed under another
+    parameter's name means episodes are randomised within the WRONG range whenever the two configured ranges differ; the probe
+    uses pairwise different ranges and reports the configuration as the failing input.  If the hook points are renamed the probe
+    is skipped with a note (the thorough tier checks the same thing behaviourally on compiled initial states)."""
+    import inspect
+    try:
+        from lerax.env.unitree.g1 import randomize as rnd
+        orig = rnd.randomize_model
+    except Exception as e:  # noqa: BLE001
+        ck.notes.append(f"wiring probe skipped: {e}"); return
+
+    class Captured(Exception):
+        pass
+
+    def recorder(model, *a, **kw):
+        raise Captured(kw)
+
+    ranges = {"friction_range": (0.31, 0.52), "friction_loss_scale_range": (0.81, 0.93), "armature_scale_range": (1.21, 1.42),
+              "mass_scale_range": (0.95, 1.04), "torso_offset_range": (-0.55, 0.45)}
+    for cls in (G1Locomotion, G1Standing, G1Standup):
+        accepted = {k: v for k, v in ranges.items() if k in inspect.signature(cls.__init__).parameters}
+        if len(accepted) < 2:
+            ck.notes.append(f"wiring probe skipped for {cls.__name__}: constructor parameters renamed"); continue
+        env = cls(**accepted)
+        rnd.randomize_model = recorder
+        try:
+            env.initial(key=jr.key(0))
+            ck.notes.append(f"wiring probe skipped for {cls.__name__}: initial() does not call randomize.randomize_model"); continue
+        except Captured as c:
+            kw = c.args[0]
+        except Exception as e:  # noqa: BLE001
+            ck.notes.append(f"wiring probe skipped for {cls.__name__}: {type(e).__name__}"); continue
+        finally:
+            rnd.randomize_model = orig
+        ck.count("range-wiring-probes")
+        ck.case_seen(("wiring", cls.__name__))
+        for name, want in accepted.items():
+            if name not in kw:
+                continue
+            got = tuple(float(x) for x in np.asarray(kw[name]).reshape(-1))
+            if not np.allclose(got, want, rtol=1e-6):
+                other = [n for n, v in accepted.items() if np.allclose(got, v, rtol=1e-6)]
+                report(ck, "impl-violates-property", f"C20/initial/range-wiring/{cls.__name__}",
+                       f"{cls.__name__}.initial() randomises '{name}' within {got} (the configured {other[0] if other else '?'}) instead of the configured {want}",
+                       case={"task": cls.__name__, "constructor_arguments": {k: list(v) for k, v in accepted.items()}, "parameter": name, "range_used": list(got)})
+
+
 def describe(sig):
     last = sig.split("/")[-1]
     if last.startswith("model."):
@@ -601,10 +650,12 @@ def body(ck):
     if os.environ.get("C20_ONLY_GAIT") == "1":  # debugging aid (mutation tests of gait.py): skip the environments
         ck.notes.append("C20_ONLY_GAIT=1: environment part skipped")
     elif quick:
+        wiring_probe(ck)
         env = G1Locomotion()
         direct_randomize(ck, cases, cj, sigs, env, quick)
         env_part(ck, cases, cj, sigs, "G1Locomotion", env, n_keys=24, n_steps=150, seed=ck.seed + 20, cfg_desc="default")
     else:
+        wiring_probe(ck)
         env = G1Locomotion()
         direct_randomize(ck, cases, cj, sigs, env, quick)
         env_part(ck, cases, cj, sigs, "G1Locomotion", env, n_keys=64, n_steps=1000, seed=ck.seed + 20, cfg_desc="default")
